@@ -79,16 +79,18 @@ Record vstate := mkV {
   v_taint : list nat;                (* uids of Arg markers whose .tainted is set *)
   v_next : nat;                      (* next fresh marker uid *)
   v_varargs : option marker;
-  v_varkwargs : option marker
+  v_varkwargs : option marker;
+  v_rev : bool                       (* self.revisiting: the deferred calls are being processed *)
 }.
 
-Definition set_frames st fs := mkV fs (v_cur st) (v_calls st) (v_todo st) (v_taint st) (v_next st) (v_varargs st) (v_varkwargs st).
-Definition set_cur st c := mkV (v_frames st) c (v_calls st) (v_todo st) (v_taint st) (v_next st) (v_varargs st) (v_varkwargs st).
-Definition add_call st c := mkV (v_frames st) (v_cur st) (v_calls st ++ [c]) (v_todo st) (v_taint st) (v_next st) (v_varargs st) (v_varkwargs st).
-Definition set_todo st t := mkV (v_frames st) (v_cur st) (v_calls st) t (v_taint st) (v_next st) (v_varargs st) (v_varkwargs st).
-Definition add_taint st u := mkV (v_frames st) (v_cur st) (v_calls st) (v_todo st) (u :: v_taint st) (v_next st) (v_varargs st) (v_varkwargs st).
-Definition bump st := mkV (v_frames st) (v_cur st) (v_calls st) (v_todo st) (v_taint st) (S (v_next st)) (v_varargs st) (v_varkwargs st).
-Definition set_stars st va vk := mkV (v_frames st) (v_cur st) (v_calls st) (v_todo st) (v_taint st) (v_next st) va vk.
+Definition set_frames st fs := mkV fs (v_cur st) (v_calls st) (v_todo st) (v_taint st) (v_next st) (v_varargs st) (v_varkwargs st) (v_rev st).
+Definition set_cur st c := mkV (v_frames st) c (v_calls st) (v_todo st) (v_taint st) (v_next st) (v_varargs st) (v_varkwargs st) (v_rev st).
+Definition add_call st c := mkV (v_frames st) (v_cur st) (v_calls st ++ [c]) (v_todo st) (v_taint st) (v_next st) (v_varargs st) (v_varkwargs st) (v_rev st).
+Definition set_todo st t := mkV (v_frames st) (v_cur st) (v_calls st) t (v_taint st) (v_next st) (v_varargs st) (v_varkwargs st) (v_rev st).
+Definition add_taint st u := mkV (v_frames st) (v_cur st) (v_calls st) (v_todo st) (u :: v_taint st) (v_next st) (v_varargs st) (v_varkwargs st) (v_rev st).
+Definition bump st := mkV (v_frames st) (v_cur st) (v_calls st) (v_todo st) (v_taint st) (S (v_next st)) (v_varargs st) (v_varkwargs st) (v_rev st).
+Definition set_stars st va vk := mkV (v_frames st) (v_cur st) (v_calls st) (v_todo st) (v_taint st) (v_next st) va vk (v_rev st).
+Definition set_rev st b := mkV (v_frames st) (v_cur st) (v_calls st) (v_todo st) (v_taint st) (v_next st) (v_varargs st) (v_varkwargs st) b.
 
 Definition empty_frame (parent : option nat) : frame := mkFrame parent [] [] [].
 
@@ -304,7 +306,7 @@ Fixpoint walk (force : bool) (n : node) (st : vstate) {struct n} : vstate :=
       | None => st3
       end
   | NCall func args kws =>
-      if negb force && is_some (f_parent (get_frame (v_frames st) (v_cur st))) then
+      if negb force && negb (v_rev st) && is_some (f_parent (get_frame (v_frames st) (v_cur st))) then
         (* visit_Call in a nested scope: deferred *)
         set_todo st (v_todo st ++ [(n, v_cur st)])
       else
@@ -417,7 +419,7 @@ Fixpoint drain (fuel : nat) (st : vstate) : option vstate :=
   end.
 
 Definition init_state : vstate :=
-  mkV [empty_frame None] O [] [] [] O None None.
+  mkV [empty_frame None] O [] [] [] O None None false.
 
 (* CallListerVisitor(func): func.args / func.body of the root definition *)
 Definition visit_function (fargs fkwonly : list N) (va kw : option N) (body : list node)
@@ -425,7 +427,7 @@ Definition visit_function (fargs fkwonly : list N) (va kw : option N) (body : li
   let st1 := process_parameters true fargs fkwonly va kw init_state in
   let st2 := fold_left (fun s x => walk false x s) body st1 in
   let fuel := S (fold_left (fun a x => (a + count_calls x)%nat) body O) in
-  match drain fuel st2 with
+  match drain fuel (set_rev st2 true) with
   | Some st3 => Some (v_calls st3)
   | None => None
   end.
